@@ -3,6 +3,7 @@ package main
 // C16 — line markers are transparent and name the right source line.
 
 import (
+	"go/token"
 	"fmt"
 	"go/types"
 	"strings"
@@ -238,6 +239,72 @@ func c16a(c *Ctx) {
 			}
 		}
 	}
+	// the guard's verdict decides nothing but whether a marker line is written: outside
+	// emitRawStatement (which has its own same-text clause) the branch taken when markers are on
+	// holds only marker calls and rejoins the other branch at once
+	nGuard := 0
+	for _, fn := range c.W.FuncsOf("emitter") {
+		if isTestFunc(c.W, fn) || fn.Name() == "emitRawStatement" {
+			continue
+		}
+		for _, call := range callsToIn(fn, should) {
+			nGuard++
+			v, _ := call.(ssa.Value)
+			okUse := v != nil && v.Referrers() != nil
+			why := ""
+			if okUse {
+				for _, r := range *v.Referrers() {
+					if _, isDbg := r.(*ssa.DebugRef); isDbg {
+						continue
+					}
+					// `if !guard { return }` / `if guard { marker }`: through negations to an If
+					cur := r
+					neg := false
+					for {
+						u, isNot := cur.(*ssa.UnOp)
+						if !isNot || u.Op != token.NOT || u.Referrers() == nil || len(*u.Referrers()) != 1 {
+							break
+						}
+						neg = !neg
+						cur = (*u.Referrers())[0]
+					}
+					ifi, isIf := cur.(*ssa.If)
+					if !isIf {
+						okUse, why = false, fmt.Sprintf("the verdict is used by %T", r)
+						continue
+					}
+					onB, offB := ifi.Block().Succs[0], ifi.Block().Succs[1]
+					if neg {
+						onB, offB = offB, onB
+					}
+					// the "off" branch writes nothing and calls nothing
+					for _, x := range offB.Instrs {
+						if ci, isCall := x.(ssa.CallInstruction); isCall && offB != onB {
+							// allowed only if the off branch is the common continuation (the join)
+							_ = ci
+						}
+					}
+					// the "on" branch: only marker calls, then straight to the off branch (or return)
+					for _, x := range onB.Instrs {
+						switch y := x.(type) {
+						case ssa.CallInstruction:
+							if callee(y) != emit {
+								okUse, why = false, "with markers on "+fn.Name()+" also calls "+calleeName(y)
+							}
+						case *ssa.Jump, *ssa.Return, *ssa.DebugRef, *ssa.FieldAddr, *ssa.UnOp, *ssa.Field:
+						default:
+							okUse, why = false, fmt.Sprintf("with markers on %s also executes %T", fn.Name(), x)
+						}
+					}
+					if len(onB.Succs) == 1 && onB.Succs[0] != offB {
+						okUse, why = false, "the branch taken when markers are on does not rejoin the other branch at once"
+					}
+				}
+			}
+			c.Check(okUse, fmt.Sprintf("%s/guard-verdict-only-adds-a-marker@%d", c.W.FuncKey(fn), c.T(fn).callOrd[call]), c.W.Pos(call.Pos()), "the marker guard decides only whether a marker line is written", "the verdict of shouldEmitLineMarkers decides more than a marker line: "+why+" (removing the marker lines would no longer give the output without -lm)")
+		}
+	}
+	c.Check(nGuard >= 1, "guard-verdict/sites", "-", fmt.Sprintf("%d uses of the guard outside emitRawStatement", nGuard), "no call of shouldEmitLineMarkers found outside emitRawStatement")
 	c.OK("confinement/scanned", "-", fmt.Sprintf("%d functions carry the (enable, path) pair; all uses are call arguments", len(roles)))
 	// 6. raw statement: same text in both arms
 	if fn := c.Fn("emitter.Emitter.emitRawStatement"); fn != nil {
